@@ -13,7 +13,7 @@
    [C14_ok]  the five clauses of the property evaluated on the observation itself (Servers/Trace.v),
              with the reference projection [project] in place of the filter model.
    [C14_guard] read masks without empty segments (the guard of C06's projection theorem). *)
-From SC Require Import Base.Prelude Msg.Msg Msg.Schema Msg.Path Masks.Get
+From SC Require Import Base.Prelude Msg.Msg Msg.Schema Msg.Path Masks.Get Masks.Update Traits.FanSpeed
   Resource.Impl Resource.Pull Servers.Kinds Servers.GenericServer Servers.Trace Gen.Servers.
 Local Open Scope string_scope.
 
@@ -25,14 +25,73 @@ Definition dev_names : list string := ["dev"; "dev2"].
    resource the request writes; [] (or a missing entry) = one, which is what every register does.
    Only openclosepb.ModelServer (a collection of positions assembled into one OpenClosePositions)
    has requests that write none or several. *)
+(* an Update request as sent: the resource message it carries, its update mask, the whole request *)
+Record ureq := mkU { u_res : option value; u_um : mask; u_req : value }.
+
+(* [KTraceX] additionally carries
+     [eqt]   the oracle table of the configured comparer (EqOracle servers): the ordered pairs (x, y) of
+             values of this history -- register values and their projections under the read masks of the
+             history's Pulls, and every message a stream received -- for which the REAL comparer taken out
+             of the server's resource.Value answered true;
+     [reqs]  the Update requests in issue order, for the servers whose business rule is written out
+             below ([hand_table]). *)
 Inductive c14case :=
 | KTrace (server : string) (init : value) (evs : list (tev value rmask)) (streams : list (sobs value))
-         (parts : list nat).
+         (parts : list nat)
+| KTraceX (server : string) (init : value) (evs : list (tev value rmask)) (streams : list (sobs value))
+          (parts : list nat) (eqt : list (value * value)) (reqs : list ureq).
 
-Definition equiv_of (e : eqkind) : option (option value -> option value -> bool) :=
+Definition c_server (c : c14case) := match c with KTrace s _ _ _ _ | KTraceX s _ _ _ _ _ _ => s end.
+Definition c_init (c : c14case) := match c with KTrace _ i _ _ _ | KTraceX _ i _ _ _ _ _ => i end.
+Definition c_evs (c : c14case) := match c with KTrace _ _ e _ _ | KTraceX _ _ e _ _ _ _ => e end.
+Definition c_streams (c : c14case) := match c with KTrace _ _ _ s _ | KTraceX _ _ _ s _ _ _ => s end.
+Definition c_parts (c : c14case) := match c with KTrace _ _ _ _ p | KTraceX _ _ _ _ p _ _ => p end.
+Definition c_eqt (c : c14case) : list (value * value) := match c with KTrace _ _ _ _ _ => [] | KTraceX _ _ _ _ _ t _ => t end.
+Definition c_reqs (c : c14case) : list ureq := match c with KTrace _ _ _ _ _ => [] | KTraceX _ _ _ _ _ _ r => r end.
+
+(* ---- the configured equivalence ---- *)
+Definition is_float (s : scalar) : bool := match s with SF32 _ | SF64 _ => true | _ => false end.
+
+(* a value with its float leaves taken out: two values with the same image differ in floats only
+   (an implicit-presence float field that is 0 on one side is absent from that side's tree) *)
+Fixpoint strip_floats (v : value) {struct v} : value :=
+  match v with
+  | VS s => if is_float s then VS (SF32 0) else v
+  | VM fs =>
+      VM ((fix go (l : list (string * value)) : list (string * value) :=
+             match l with
+             | [] => []
+             | (k, x) :: r =>
+                 match x with
+                 | VS s => if is_float s then go r else (k, x) :: go r
+                 | _ => (k, strip_floats x) :: go r
+                 end
+             end) fs)
+  | VL l => VL ((fix go (l : list value) : list value :=
+                   match l with [] => [] | x :: r => strip_floats x :: go r end) l)
+  | VMap kv => VMap ((fix go (l : list (scalar * value)) : list (scalar * value) :=
+                        match l with [] => [] | (k, x) :: r => (k, strip_floats x) :: go r end) kv)
+  end.
+
+Definition tolerance_shaped (x y : value) : bool := value_eqb (strip_floats x) (strip_floats y).
+
+Definition pair_in (t : list (value * value)) (x y : value) : bool :=
+  existsb (fun p => value_eqb (fst p) x && value_eqb (snd p) y) t.
+
+(* EqOracle: Compare(last, new) as the real comparer answered it -- accepted as "within the configured
+   equivalence tolerance" only between values that differ in float leaves alone.  Compare(nil, x) is
+   false for every comparer in the tree (cmp.Equal; a stream that was sent nothing compares nothing). *)
+Definition oracle_equiv (t : list (value * value)) (a b : option value) : bool :=
+  match a, b with
+  | Some x, Some y => pair_in t x y && tolerance_shaped x y
+  | _, _ => false
+  end.
+
+Definition equiv_of (e : eqkind) (eqt : list (value * value)) : option (option value -> option value -> bool) :=
   match e with
   | EqNone => None
   | EqExact => Some (option_eqb value_eqb)          (* Compare(nil, x) = false; proto.Equal otherwise *)
+  | EqOracle => Some (oracle_equiv eqt)
   end.
 
 (* the model's read filter: FilterClone as it is in pkg/masks; a panic shows as a marker value *)
@@ -83,12 +142,154 @@ Definition get_filter_of (vr : variant) (ty : string) : rmask -> value -> value 
 Definition live_of (vr : variant) : option value -> bool :=
   match vr with VPlain => fun _ => true | VOpenClose => oc_live end.
 
-(* ---- rule-as-oracle ---- *)
+(* ---- business rules written out (hand rules) ----
+   For the servers below the Update handler is simple enough to be written in Gallina over message
+   trees, on top of the C05 model of masks.FieldUpdater (Masks/Update.v [write]: Validate, then Merge
+   into a clone of the stored value) and, for the fan speed, the C20 model of DeriveValues
+   (Traits/FanSpeed.v).  [hand_rule] answers None where a request is outside what the rule covers
+   (then the observed response is taken as an oracle, as for every other server). *)
+Inductive hrule :=
+| HPlain (resw : mask)                       (* Value.Set(request.<R>, WithUpdateMask(request.update_mask)) *)
+| HUnless (flag : string) (resw : mask)      (* the same, when the request field [flag] is not populated *)
+| HCount                                     (* countpb.MemoryDevice: delta adds the stored counts (int32) *)
+| HFan.                                      (* fanspeedpb: validateUpdate, Set without mask, DeriveValues *)
+
+Definition p1 (f : string) : path := [f].
+
+Definition hand_table : list (string * hrule) := [
+  ("onoffpb.ModelServer/OnOffApi.OnOff", HPlain None);
+  ("presspb.ModelServer/PressApi.PressedState", HPlain None);
+  ("airtemperaturepb.ModelServer/AirTemperatureApi.AirTemperature", HPlain None);
+  ("airtemperaturepb.MemoryDevice/AirTemperatureApi.AirTemperature",
+     HPlain (Some [p1 "mode"; p1 "temperature_set_point"; p1 "temperature_set_point_delta"; p1 "temperature_range"]));
+  ("countpb.MemoryDevice/CountApi.Count", HCount);
+  ("speakerpb.MemoryDevice/SpeakerApi.Volume", HUnless "delta" None);
+  ("modepb.ModelServer/ModeApi.ModeValues", HUnless "relative" None);
+  ("fanspeedpb.ModelServer/FanSpeedApi.FanSpeed", HFan)
+].
+
+Definition tint (f : string) (v : option value) : Z :=
+  match v with
+  | Some m => match vget f m with Some (VS (SInt z)) => z | _ => 0 end
+  | None => 0
+  end.
+Definition tset_int (f : string) (z : Z) (m : value) : value :=
+  if (z =? 0)%Z then vclear f m else vset f (VS (SInt z)) m.
+
+(* Set with the request's update mask against the resource's writable fields; a panic of the mask
+   code is not something a rule predicts (None) *)
+Definition plain_write (ty : string) (resw um : mask) (base : option value) (written : value) : option (value + Z) :=
+  match write servers_schema ty false resw None um None (match base with Some b => b | None => VM [] end) written with
+  | WErr c => Some (inr c)
+  | WOk d => Some (inl d)
+  | WPanic => None
+  end.
+
+(* ---- fan speed on trees: percentages are float32 bit patterns; Go's == on them is equality of the
+   patterns as long as neither is a NaN or a negative zero (such requests are not covered) ---- *)
+Definition fan_presets : list preset :=
+  [("off", 0); ("low", 1097859072); ("med", 1109393408); ("high", 1117126656); ("full", 1120403456)].
+Definition f32_plain (b : Z) : bool := ((0 <=? b) && (b <=? 2139095040))%Z.   (* +0 .. +Inf: no sign bit, no NaN *)
+Definition fan_of (v : value) : option fan :=
+  let pct := match vget "percentage" v with Some (VS (SF32 b)) => b | _ => 0 end in
+  if f32_plain pct then
+    Some (mkFan pct
+            (match vget "preset" v with Some (VS (SStr s)) => s | _ => "" end)
+            (match vget "preset_index" v with Some (VS (SInt z)) => z | _ => 0 end)
+            (match vget "direction" v with Some (VS (SEnum z)) => z | _ => 0 end))
+  else None.
+Definition tree_of_fan (f : fan) : value :=
+  VM ((if (f_pct f =? 0)%Z then [] else [("percentage", VS (SF32 (f_pct f)))]) ++
+      (if String.eqb (f_preset f) "" then [] else [("preset", VS (SStr (f_preset f)))]) ++
+      (if (f_idx f =? 0)%Z then [] else [("preset_index", VS (SInt (f_idx f)))]) ++
+      (if (f_dir f =? 0)%Z then [] else [("direction", VS (SEnum (f_dir f)))])).
+
+Definition populated (f : string) (v : value) : bool := vhas f v.
+
+(* protobuf-go's Merge does not copy a float that compares equal to 0, a negative zero included, although
+   such a field counts as populated; the merge model (Msg/ProtoOps.v) copies every populated field.
+   Written messages holding a negative zero are left to the oracle. *)
+Fixpoint has_negzero (v : value) {struct v} : bool :=
+  match v with
+  | VS (SF32 b) => (b =? 2147483648)%Z
+  | VS (SF64 b) => (b =? 9223372036854775808)%Z
+  | VS _ => false
+  | VM fs => (fix go (l : list (string * value)) : bool :=
+                match l with [] => false | (_, x) :: r => has_negzero x || go r end) fs
+  | VL l => (fix go (l : list value) : bool :=
+               match l with [] => false | x :: r => has_negzero x || go r end) l
+  | VMap kv => (fix go (l : list (scalar * value)) : bool :=
+                  match l with [] => false | (_, x) :: r => has_negzero x || go r end) kv
+  end.
+
+Definition hand_rule (ty : string) (h : hrule) (base : option value) (q : ureq) : option (value + Z) :=
+  match u_res q with
+  | None => None
+  | Some res =>
+      if has_negzero res then None else
+      match h with
+      | HPlain resw => plain_write ty resw (u_um q) base res
+      | HUnless flag resw => if populated flag (u_req q) then None else plain_write ty resw (u_um q) base res
+      | HCount =>
+          let res1 := if populated "delta" (u_req q)
+                      then tset_int "removed" (wrap32 (tint "removed" (Some res) + tint "removed" base))
+                             (tset_int "added" (wrap32 (tint "added" (Some res) + tint "added" base)) res)
+                      else res in
+          plain_write ty (Some [p1 "added"; p1 "removed"]) (u_um q) base res1
+      | HFan =>
+          if populated "relative" (u_req q) then None else
+          match base with
+          | None => None
+          | Some b =>
+              match fan_of b, fan_of res with
+              | Some old, Some req =>
+                  match fst (fan_update fan_presets old req false) with
+                  | FOk new => Some (inl (tree_of_fan new))
+                  | FErr c => if (c =? 3)%Z then Some (inr 3) else None
+                  | FPanic => None
+                  end
+              | _, _ => None
+              end
+          end
+      end
+  end.
+
+(* ---- the rule the model runs with: the hand rule where there is one and it covers the request,
+   otherwise the observed response of that Update (rule-as-oracle) ---- *)
 Definition update_resps (evs : list (tev value rmask)) : list (value + Z) :=
   flat_map (fun e => match e with TUpdate _ r => [r] | _ => [] end) evs.
 
 Definition oracle_rule (rs : list (value + Z)) : option value -> nat -> value + Z :=
   fun _ n => nth n rs (inr 2).
+
+(* the merge model (Msg/ProtoOps.v proto_merge) appends fields new to the destination instead of placing
+   them in field-number order: its result is the message up to the order of fields and map entries
+   ([value_equiv]).  Where the observed response is that same message, the model continues with the
+   observed (canonical) tree, so that later Gets and stream messages compare with [value_eqb]. *)
+Definition snap (v : value) (observed : value + Z) : value :=
+  match observed with
+  | inl w => if value_equiv v w then w else v
+  | inr _ => v
+  end.
+
+Definition hybrid_rule (server ty : string) (reqs : list ureq) (rs : list (value + Z)) : option value -> nat -> value + Z :=
+  fun base n =>
+    match alookup server hand_table, nth_error reqs n with
+    | Some h, Some q =>
+        match hand_rule ty h base q with
+        | Some (inl v) => inl (snap v (oracle_rule rs base n))
+        | Some (inr c) => inr c
+        | None => oracle_rule rs base n
+        end
+    | _, _ => oracle_rule rs base n
+    end.
+
+(* how many Updates of a case the hand rule decides (for the statistics only) *)
+Definition hand_covered (server ty : string) (reqs : list ureq) : nat :=
+  match alookup server hand_table with
+  | Some h => List.length (filter (fun q => match hand_rule ty h None q with Some _ => true | None => false end) reqs)
+  | None => O
+  end.
 
 Fixpoint reqs_of (n : nat) (evs : list (tev value rmask)) : list (sreq rmask nat) :=
   match evs with
@@ -99,9 +300,10 @@ Fixpoint reqs_of (n : nat) (evs : list (tev value rmask)) : list (sreq rmask nat
   | TCancel i :: r => QCancel i :: reqs_of n r
   end.
 
-Definition model_run (vr : variant) (info : srvinfo) (init : value) (evs : list (tev value rmask)) :=
+Definition model_run (vr : variant) (server : string) (info : srvinfo) (init : value) (evs : list (tev value rmask))
+           (reqs : list ureq) :=
   run value_eqb (VM []) (get_filter_of vr (sv_type info)) (live_of vr) clock
-      (oracle_rule (update_resps evs)) true dev_names
+      (hybrid_rule server (sv_type info) reqs (update_resps evs)) true dev_names
       (srv_init rmask clock (Some init)) (reqs_of 0 evs).
 
 Definition upd_eqb (a b : value + Z) : bool :=
@@ -129,36 +331,36 @@ Fixpoint all2 {A B} (f : A -> B -> bool) (a : list A) (b : list B) : bool :=
 
 Definition info_of (server : string) : option srvinfo := alookup server servers_table.
 
-Definition agrees_gen (vof : string -> variant) (c : c14case) : bool :=
-  match c with
-  | KTrace server init evs streams _ =>
-      match info_of server with
-      | None => false
-      | Some info =>
-          let '(s, resps) := model_run (vof server) info init evs in
-          all2 resp_matches resps evs && list_eqb (sobs_eqb value_eqb) (outputs (model_filter (sv_type info)) (equiv_of (sv_eq info)) s) streams
-      end
+Definition agrees_core (vof : string -> variant) (server : string) (init : value) (evs : list (tev value rmask))
+           (streams : list (sobs value)) (eqt : list (value * value)) (reqs : list ureq) : bool :=
+  match info_of server with
+  | None => false
+  | Some info =>
+      let '(s, resps) := model_run (vof server) server info init evs reqs in
+      all2 resp_matches resps evs &&
+      list_eqb (sobs_eqb value_eqb) (outputs (model_filter (sv_type info)) (equiv_of (sv_eq info) eqt) s) streams
   end.
+
+Definition agrees_gen (vof : string -> variant) (c : c14case) : bool :=
+  agrees_core vof (c_server c) (c_init c) (c_evs c) (c_streams c) (c_eqt c) (c_reqs c).
 Definition agrees := agrees_gen variant_of.
 Definition agrees_v0 := agrees_gen variant_of_v0.
 
-Definition C14_ok (c : c14case) : bool :=
-  match c with
-  | KTrace server init evs streams _ =>
-      match info_of server with
-      | None => false
-      | Some info => trace_ok value_eqb ref_proj (equiv_of (sv_eq info)) dev_names (mkTrace (Some init) evs streams)
-      end
+Definition ok_core (server : string) (init : value) (evs : list (tev value rmask)) (streams : list (sobs value))
+           (eqt : list (value * value)) : bool :=
+  match info_of server with
+  | None => false
+  | Some info => trace_ok value_eqb ref_proj (equiv_of (sv_eq info) eqt) dev_names (mkTrace (Some init) evs streams)
   end.
+
+Definition C14_ok (c : c14case) : bool := ok_core (c_server c) (c_init c) (c_evs c) (c_streams c) (c_eqt c).
 
 Definition mask_ok (k : option rmask) : bool :=
   match k with None => true | Some ps => segs_ok ps && forallb (fun p => match p with [] => false | _ => true end) ps end.
 
-Definition C14_guard (c : c14case) : bool :=
-  match c with
-  | KTrace _ _ evs _ _ =>
-      forallb (fun e => match e with TGet _ k _ => mask_ok k | TOpen _ k _ => mask_ok k | _ => true end) evs
-  end.
+Definition guard_core (evs : list (tev value rmask)) : bool :=
+  forallb (fun e => match e with TGet _ k _ => mask_ok k | TOpen _ k _ => mask_ok k | _ => true end) evs.
+Definition C14_guard (c : c14case) : bool := guard_core (c_evs c).
 
 (* ---- histories with an Update that does not write exactly one item (openclosepb only) ----
    The register model has nothing to say about them ([agrees] is not consulted): an Update without
@@ -237,18 +439,15 @@ Fixpoint streams_from_x eqv init evs parts (i : nat) (obs : list (sobs value)) :
   end.
 
 Definition relaxed_ok (c : c14case) : bool :=
-  match c with
-  | KTrace server init evs streams parts =>
-      match info_of server with
-      | None => false
-      | Some info =>
-          gets_ok value_eqb ref_proj dev_names (Some init) evs &&
-          Nat.eqb (List.length streams) (count_opens evs) &&
-          streams_from_x (equiv_of (sv_eq info)) init evs parts O streams
-      end
+  match info_of (c_server c) with
+  | None => false
+  | Some info =>
+      gets_ok value_eqb ref_proj dev_names (Some (c_init c)) (c_evs c) &&
+      Nat.eqb (List.length (c_streams c)) (count_opens (c_evs c)) &&
+      streams_from_x (equiv_of (sv_eq info) (c_eqt c)) (c_init c) (c_evs c) (c_parts c) O (c_streams c)
   end.
 
-Definition parts_of (c : c14case) : list nat := match c with KTrace _ _ _ _ ps => ps end.
+Definition parts_of (c : c14case) : list nat := c_parts c.
 
 Definition judge (c : c14case) : Z :=
   if irregular (parts_of c) then
